@@ -1255,6 +1255,8 @@ def trusted_note(key):
         return py2lean_matching.trusted_note(key)
     if key in IMAGE_KEYS:                        # the image engine (py2lean_image.py)
         return py2lean_image.trusted_note(key)
+    if key in LANDSCAPE_KEYS:                    # the landscape engine (py2lean_landscape.py)
+        return py2lean_landscape.trusted_note(key)
     if key in STMT_KEYS:
         return ("harness/translator/py2lean.py + py2lean_stmt.py (statement-level ast translation of the anchored code of %s into "
                 "Generated/%s, proved equal to the hand-written model on every run; its TARGETS table -- binders, the attribute -> "
@@ -1288,6 +1290,8 @@ def manifest_note(key):
         return py2lean_matching.manifest_note(key)
     if key in IMAGE_KEYS:                        # the image engine (py2lean_image.py)
         return py2lean_image.manifest_note(key)
+    if key in LANDSCAPE_KEYS:                    # the landscape engine (py2lean_landscape.py)
+        return py2lean_landscape.manifest_note(key)
     if key in STMT_KEYS:
         for cfg in py2lean_stmt.TARGETS:
             if cfg["file"] == key:
@@ -1326,6 +1330,11 @@ def prop_files(key):
         return list(py2lean_matching.BRIDGES[key]) + [prop_file(key)]
     if key in IMAGE_KEYS:                        # the image engine (py2lean_image.py)
         return list(py2lean_image.BRIDGES.get(key, [])) + [prop_file(key)]
+    if key in LANDSCAPE_KEYS:                    # the landscape engine (py2lean_landscape.py): with the generated files it imports
+        out = []
+        for k in py2lean_landscape.IMPORTED_KEYS.get(key, []):
+            out += [f for f in prop_files(k) if f not in out]
+        return out + [f for f in py2lean_landscape.BRIDGES.get(key, []) if f not in out] + [prop_file(key)]
     return list(py2lean_stmt.BRIDGES.get(key, py2lean_sweep.BRIDGES.get(key, []))) + [prop_file(key)]
 
 
@@ -1650,7 +1659,8 @@ def all_target_functions(path):
             + [c["func"] for c in py2lean_stmt.TARGETS if c.get("pyfile", FILES[c["file"]][0]) == path]
             + [c["func"] for c in py2lean_sweep.TARGETS if FILES[c["file"]][0] == path]
             + [c["func"] for c in py2lean_matching.TARGETS if FILES[c["file"]][0] == path]
-            + [c["func"] for c in py2lean_image.TARGETS + [py2lean_image.PIN_TARGET] if FILES[c["file"]][0] == path])
+            + [c["func"] for c in py2lean_image.TARGETS + [py2lean_image.PIN_TARGET] if FILES[c["file"]][0] == path]
+            + py2lean_landscape.target_functions(path))                       # the landscape engine (py2lean_landscape.py)
 
 
 def not_translated_comment(items):
@@ -1935,6 +1945,8 @@ def render_file(key, root):
         return py2lean_matching.render_file(key, root)
     if key in IMAGE_KEYS:                        # the image engine (py2lean_image.py)
         return py2lean_image.render_file(key, root)
+    if key in LANDSCAPE_KEYS:                    # the landscape engine (py2lean_landscape.py)
+        return py2lean_landscape.render_file(key, root)
     py, out, ns, model, prop = FILES[key]
     o, info = [header(key)], {"source": py, "output": "/".join([GEN.replace(os.sep, "/"), out]), "functions": {}}
     src, fns, file_err, tree = "", {}, None, None
@@ -2194,6 +2206,12 @@ from . import py2lean_image  # noqa: E402
 for _k, _v in py2lean_image.FILES.items():
     FILES[_k] = _v[:5]
     IMAGE_KEYS.add(_k)
+# the landscape engine (arithmetic, norm entry points, grid tools, vectorize, the landscaper's transform) registers its files the same way
+LANDSCAPE_KEYS = set()
+from . import py2lean_landscape  # noqa: E402
+for _k, _v in py2lean_landscape.FILES.items():
+    FILES[_k] = _v[:5]
+    LANDSCAPE_KEYS.add(_k)
 
 
 if __name__ == "__main__":
